@@ -16,8 +16,8 @@ def _reach_without(fn, start, avoid):
     return seen
 
 
-def _norm(fn, op):
-    e = fn.expr_operand(op)
+def _norm(fn, op, render=None):
+    e = render(op) if render else fn.expr_operand(op)
     neg = False
     while e.startswith("Not(") and e.endswith(")"):
         e = e[4:-1]
@@ -55,12 +55,12 @@ def _defining_call_block(fn, op, hops=6):
     return None
 
 
-def dominating_conditions(fn, bb, cache=None):
+def dominating_conditions(fn, bb, cache=None, render=None):
     """{expr: value} for every switch block that dominates `bb` and whose outcome is determined
     on every path to `bb` (bb is reachable from exactly one successor of the switch, not counting
     paths that go round through the switch again). value: int or ('not', (..))."""
     if cache is None:
-        cache = fn.__dict__.setdefault("_domcond_cache", {})
+        cache = fn.__dict__.setdefault("_domcond_cache" if render is None else "_domcond_cache_v", {})
     if bb in cache:
         return cache[bb]
     out = Conds()
@@ -83,7 +83,7 @@ def dominating_conditions(fn, bb, cache=None):
         if len(targets) != 1:
             continue
         vals = [v for v, _ in hit]
-        e, neg = _norm(fn, t["discr"])
+        e, neg = _norm(fn, t["discr"], render)
         isbool = t["dty"] == "bool"
         listed = [v for v, _ in t["targets"]]
         if len(vals) == 1 and vals[0] is not None:
